@@ -297,3 +297,18 @@ package frame
 //@            rw.OutSignatureLinkID == conf.OutSignatureLinkID
 //@   ensures  logLen() == 1 && logCallee(0, "(*frame.ReadWriter).Initialize") && logArgIsPtr(0, 0, rw) && err == logRetErr(0)
 //@   modifies ghost:log
+
+// deprecated entry points
+//@ func (*Writer).WriteMessage
+//@   ghostlog (*frame.Writer).writeFrameAndFill
+//@   requires w != nil
+//@   ensures  [wrapped-in-a-frame-of-the-configured-version] logLen() == 1 && logCallee(0, "(*frame.Writer).writeFrameAndFill") && logArgIsPtr(0, 0, w) &&
+//@              err == logRetErr(0) && specFrameMessage(logArg(0, 1).(Frame)) == m && freshPtr(logArg(0, 1)) &&
+//@              (w.OutVersion == V1) == !SpecIsV2(logArg(0, 1).(Frame))
+//@   modifies ghost:log
+
+//@ func (*Writer).WriteFrame
+//@   ghostlog (*frame.Writer).Write
+//@   requires w != nil
+//@   ensures  [same-as-write] logLen() == 1 && logCallee(0, "(*frame.Writer).Write") && logArgIsPtr(0, 0, w) && logArg(0, 1) == any(fr) && err == logRetErr(0)
+//@   modifies ghost:log
